@@ -161,6 +161,31 @@ class Terms:
             return ("unknown",)
         return self.of_place(p, depth)
 
+    def _is_value_copy(self, l):
+        """local `l` (not a reference / pointer / Pin) whose only definition copies a value out of a projected place"""
+        c = getattr(self, "_vc", None)
+        if c is None:
+            c = self._vc = {}
+        if l in c:
+            return c[l]
+        body = self.body
+        res = False
+        defs = [d for d in body.defs.get(l, []) if d[0] in body.reachable and not body.is_cleanup(d[0])]
+        if len(defs) == 1 and defs[0][2] == "assign" and l > body.argc:
+            rv = defs[0][3]
+            t = body.local_ty(l)
+            valty = t["k"] not in ("ref", "ptr") and not (t["k"] == "adt" and (t.get("cpath") or "").rsplit("::", 1)[-1] in ("Pin", "Box", "Arc", "Rc"))
+            if rv["k"] == "use" and "cp" in rv["op"] and rv["op"]["cp"]["p"]:
+                res = valty
+            elif rv["k"] == "use" and valty:
+                # moved on from a temporary that holds such a copy (by-value argument of an inlined helper)
+                src = rv["op"].get("mv") or rv["op"].get("cp")
+                if src is not None and not src["p"] and src["l"] != l:
+                    c[l] = False
+                    res = self._is_value_copy(src["l"])
+        c[l] = res
+        return res
+
     def _mut_borrowed(self):
         mb = getattr(self, "_mb", None)
         if mb is None:
@@ -254,7 +279,13 @@ class Terms:
         if k == "use":
             return self.of_operand(rv["op"], depth)
         if k in ("ref", "rawptr"):
-            return self.of_place(rv["place"], depth)
+            pl = rv["place"]
+            if rv.get("mut") and not pl["p"] and self._is_value_copy(pl["l"]):
+                # `&mut copy`: a mutable reference to a local that holds a *copied value* (`let mut s = this.state[i];
+                # s.set_none()`, or a by-value parameter of an inlined helper) points at the copy, not at the place the
+                # value was read from - whatever is done through it does not reach the original
+                return ("copied", pl["l"], self.of_place(pl, depth))
+            return self.of_place(pl, depth)
         if k == "cast":
             ck = rv["ck"]
             inner = self.of_operand(rv["op"], depth)
